@@ -285,6 +285,22 @@ func (f *FS) AppendData(n *Inode, abs string, data []byte) {
 	f.journal("write", abs, fmt.Sprint(len(data)), n.Ino)
 }
 
+// WriteAt writes data at an offset of a regular file (each open file
+// description has its own offset, as in POSIX: two writers that both
+// truncated and then write overwrite each other from offset 0).
+func (f *FS) WriteAt(n *Inode, abs string, off int, data []byte) {
+	size := len(n.Data)
+	if off+len(data) > size {
+		size = off + len(data)
+	}
+	nd := make([]byte, size)
+	copy(nd, n.Data)
+	copy(nd[off:], data)
+	n.Data = nd
+	n.Mtime = f.s.Cfg.Epoch + f.s.now
+	f.journal("write", abs, fmt.Sprint(len(data)), n.Ino)
+}
+
 func (f *FS) Mkfifo(cwd, path string) error {
 	p, name, n, abs, e := f.walk(cwd, path)
 	if e != 0 {
@@ -510,7 +526,7 @@ func (f *FS) GoWriteFile(path string, data []byte) error {
 	}
 	f.s.Pre("writefile-write", 0, path)
 	if len(data) > 0 {
-		f.AppendData(n, abs, data)
+		f.WriteAt(n, abs, 0, data)
 	}
 	return nil
 }
@@ -607,7 +623,12 @@ func (fl *File) Write(b []byte) (int, error) {
 		return 0, perr("write", fl.name, syscall.EBADF)
 	}
 	if len(b) > 0 {
-		fl.fs.AppendData(fl.n, fl.abs, b)
+		if fl.app {
+			fl.fs.AppendData(fl.n, fl.abs, b)
+		} else {
+			fl.fs.WriteAt(fl.n, fl.abs, fl.pos, b)
+			fl.pos += len(b)
+		}
 	}
 	return len(b), nil
 }
@@ -701,7 +722,7 @@ func (f *FS) GoOpenFile(path string, flag int) (*File, error) {
 	} else if flag&O_APPEND == 0 && len(n.Data) > 0 {
 		f.s.HarnessFail("overwrite-in-place open is not modelled: " + path)
 	}
-	return &File{fs: f, n: n, name: path, abs: abs, write: true}, nil
+	return &File{fs: f, n: n, name: path, abs: abs, write: true, app: flag&O_APPEND != 0}, nil
 }
 
 // --- tree listing for oracles ---------------------------------------------------
